@@ -83,9 +83,9 @@ def gen_plan(seed, tier):
   r2 = substream(seed, "c13-scale")
   u = r2.random()
   if u < 0.12 and desc["kind"] != "grid" and config != "natural":
-    # units are arbitrary: tiny features, so that the graphical-lasso input has
-    # entries of the order of 1e-10 .. 1e-12 under a covariance-like prior
-    gs = r2.choice([1e-5, 1e-6])
+    # units are arbitrary: tiny (huge) features, so that the graphical-lasso input
+    # has entries of the order of 1e-10 .. 1e-12 (1e14 .. 1e18) under a covariance-like prior
+    gs = r2.choice([1e-5, 1e-6, 1e7, 1e9])
     desc["global_scale"] = gs
     desc.pop("offset", None)
     if r2.random() < 0.6:
@@ -233,6 +233,16 @@ def run_plan(plan):
     if not glasso.is_pd(M):
       w = np.linalg.eigvalsh((M + M.T) / 2)
       if w.min() > -1e-12 * w.max():
+        # numerically singular M: legitimate only if the problem itself is that
+        # ill-conditioned - a well-conditioned positive definite witness says it is not
+        if pd_input and plan["config"] == "fault_free":
+          Tw, fw, _ = glasso.solve(P, p["sparsity_param"], T0=None)
+          ww = np.linalg.eigvalsh((Tw + Tw.T) / 2)
+          if np.isfinite(fw) and ww.min() > 0 and ww.max() / ww.min() < 1e6:
+            raise Violation("spd", "config=%s,singular_on_well_conditioned_problem" % plan["config"],
+                            "M is singular (lambda_min/lambda_max=%g) although the problem has a positive "
+                            "definite solution with condition number %.3g" % (w.min() / max(w.max(), 1e-300),
+                                                                              ww.max() / ww.min()))
         inconclusive.append("M_numerically_singular")
         return _done(events, violation, cov, inconclusive, shape, nontrivial)
       raise Violation("spd", "config=%s,not_pd" % plan["config"],
